@@ -107,6 +107,8 @@ type Exec struct {
 	globals    map[*ssa.Global]*value
 	pkgInit    map[*ssa.Package]int // 1 = in progress, 2 = done
 	trail      []decision
+	known      map[*Term]bool
+	pending    []pendingAssert
 	prefix     []decision
 	solDepth   int // number of trail decisions currently asserted on the solver stack
 	steps      int64
@@ -237,6 +239,9 @@ func (ex *Exec) following() (decision, bool) {
 func (ex *Exec) commit(d decision, c *Term) {
 	pos := len(ex.trail)
 	ex.trail = append(ex.trail, d)
+	if c.w == 0 && !c.IsConst() {
+		ex.known[c] = true
+	}
 	if pos < ex.solDepth {
 		return // constraint still on the solver stack from the previous path
 	}
@@ -266,6 +271,13 @@ func (ex *Exec) branchAt(c *Term, site ssa.Instruction) bool {
 		return c.val != 0
 	}
 	tt := ex.tt
+	// already decided on this path? (syntactic check, no query, no decision)
+	if ex.known[c] {
+		return true
+	}
+	if ex.known[tt.BNot(c)] {
+		return false
+	}
 	if d, ok := ex.following(); ok {
 		if d.Kind != 'b' {
 			panic(pathAbort{kind: "engine-error", reason: fmt.Sprintf("replay divergence: expected kind %c, got branch", d.Kind)})
@@ -546,6 +558,8 @@ func (ex *Exec) resetPath(prefix []decision) {
 	ex.sol.PopTo(common)
 	ex.solDepth = common
 	ex.trail = ex.trail[:0]
+	ex.known = map[*Term]bool{}
+	ex.pending = nil
 	ex.prefix = prefix
 	ex.globals = map[*ssa.Global]*value{}
 	ex.pkgInit = map[*ssa.Package]int{}
